@@ -20,9 +20,8 @@ CHECKS = {
         "note": "Partial: fairness and the behaviour of package net are assumptions (listed in lean/Varlink/Lifecycle.lean, re-validated on "
                 "real sockets each run); return time is checked with one-sided margins (3 s watchdog); theorems about return value, "
                 "endpoint release and reusability assume the orderly discipline (no API call started while a serving call's start-up or "
-                "drain is in flight, except binds refused because running = true) — the general model documents what overlap does "
-                "(a decide'd example: Bind concurrent with DoListen's start is not refused and Shutdown then does not end serving; "
-                "reproducible on the real code with `vh lifeprobe`, part of the thorough tier, recorded as a known finding). Trusted: Lean kernel, harness (controlled listener, quiescence test), "
+                "drain is in flight, except binds refused because running = true) — a Bind concurrent with the start of a serving call used to slip between the running check and running = true "
+                "(Shutdown then did not end serving): repaired in /repo by a1069ea, `vh lifeprobe` (real scheduler, every run) checks that it stays repaired). Trusted: Lean kernel, harness (controlled listener, quiescence test), "
                 "driver replay of harness events, skeleton extractor.",
         "technique": "Lean 4 LTS + invariants by induction over reachability + bounded-progress measure + regenerated skeleton (decide) + exhaustive bounded-history correspondence on the real code",
     },
